@@ -4,7 +4,7 @@ import pk, src
 from common import jhash, first_diff
 from pkgrun import *
 
-PROF = profile(tokens=True, math_markup=True, p_math=0.12, p_link=0.3, p_noteref=0.15, p_rpr=0.6, p_textbox=0.03,
+PROF = profile(p_strict=0.12, tokens=True, math_markup=True, p_math=0.12, p_link=0.3, p_noteref=0.15, p_rpr=0.6, p_textbox=0.03,
                p_footnotes=0.9, p_endnotes=0.8, p_comments=0.6, p_table=0.12, inlines=(1, 5), p_text=0.6)
 RULE = ('packages with many hyperlinks (resolvable, anchor-only, both, empty id, dangling id; one or many runs of equal or different '
         'formatting; in body, headers, notes, comments) and note references; notes with separators, several paragraphs, empty notes; '
@@ -78,7 +78,15 @@ def one(ctx, data, meta=None, htmls=(False, True)):
                     else:
                         got = src.TOKEN.findall(mm.group(2))
                         pos = [got.index(t) for t in toks if t in got]
-                        if len(pos) != len(toks) or pos != list(range(pos[0], pos[0] + len(toks))):
+                        # text of a paragraph nested below the link (a text box anchored in it) is part of the link's one run, but where in it no
+                        # property says (a nested paragraph is concluded before the text around it): membership and contiguity, not position
+                        loose = {t for q in h.iter() if src.ptag(q) == 'w:p' for x in q.iter() if src.ptag(x) in ('w:t', 'm:t') for t in src.TOKEN.findall(x.text or '')}
+                        if loose:
+                            firm = [got.index(t) for t in toks if t in got and t not in loose]
+                            ok_ = len(pos) == len(toks) and sorted(pos) == list(range(min(pos), min(pos) + len(toks))) and firm == sorted(firm)
+                        else:
+                            ok_ = len(pos) == len(toks) and pos == list(range(pos[0], pos[0] + len(toks)))
+                        if not ok_:
                             ctx.fail('link text is not the visible text of the link in order', c, {'run': run}); good = False
                 elif not any(src.ptag(x) == 'w:hyperlink' for x in h.iterdescendants()):
                     # (adjacent links without a relationship id are merged, so the run may also hold a neighbour's text and links)
